@@ -1,5 +1,4 @@
 import FatVerif.Proofs.LfnSpec
-import FatVerif.Proofs.LfnEquiv
 /-! Shape of the slots `LfnEntriesGenerator` produces, and the generator ∘ reader round trip. -/
 namespace FatVerif
 namespace Lfn
@@ -171,61 +170,23 @@ theorem readLoop_lfn_block (alloc sv : Bool) : ∀ (R rest : List (List Nat)) (i
     rw [ih rest (idx + 1) bg _ (fun x hx => h x (by simp [hx]))]
     congr 1; omega
 
-theorem cleanStarts_tail (c : Nat) (sfn : List Nat) (rest : List (List Nat))
-    (hsfn : slotClass sfn = .file ∨ slotClass sfn = .volume ∨ slotClass sfn = .deleted) :
-    ∀ T j p, TailOk c T j → (∀ s ∈ T, slotClass s = .lfn) →
-      cleanStarts p (T ++ sfn :: rest) = cleanStarts false rest := by
-  intro T
-  induction T with
-  | nil =>
-    intro _ p _ _
-    simp only [List.nil_append]
-    rw [cleanStarts]
-    rcases hsfn with h | h | h <;> simp [h]
-  | cons s T ih =>
-    intro j p ht hl
-    obtain ⟨_, _, h3, _, h5⟩ := ht
-    simp only [List.cons_append]
-    rw [cleanStarts, hl s (by simp)]
-    have : (order s / 64 % 2 == 1) = false := by simpa using h3
-    simp only [this, Bool.and_false, Bool.false_and, Bool.not_false, Bool.true_and]
-    exact ih _ true h5 (fun x hx => hl x (by simp [hx]))
-
-theorem cleanStarts_run (c : Nat) (R : List (List Nat)) (sfn : List Nat) (rest : List (List Nat))
-    (hR : CompleteRun c R) (hl : ∀ s ∈ R, slotClass s = .lfn)
-    (hsfn : slotClass sfn = .file ∨ slotClass sfn = .volume ∨ slotClass sfn = .deleted) :
-    cleanStarts false (R ++ sfn :: rest) = cleanStarts false rest := by
-  obtain ⟨s0, T, rfl, _, _, _, _, h5⟩ := hR
-  simp only [List.cons_append]
-  rw [cleanStarts, hl s0 (by simp)]
-  simp only [Bool.false_and, Bool.not_false, Bool.true_and]
-  exact cleanStarts_tail c sfn rest hsfn T _ true h5 (fun x hx => hl x (by simp [hx]))
-
 /-- a complete run directly before a short entry whose checksum it carries is handed out (both variants):
-    the entry's long name is the run's units with the trailing padding stripped -/
+    the entry's long name is the run's units with the trailing padding stripped — unless more than 255 units remain,
+    then the entry has no long name -/
 theorem read_complete_run (alloc sv : Bool) (R : List (List Nat)) (sfn : List Nat)
     (hR : CompleteRun (lfnChecksum (sfnName sfn)) R) (hl : ∀ s ∈ R, slotClass s = .lfn)
     (hsfn : slotClass sfn = .file) :
-    readDirEntries alloc sv (R ++ [sfn]) = [⟨sfn, stripTrailing (runUnits R), 0, R.length + 1⟩] := by
-  have hvec : readDirEntries true sv (R ++ [sfn]) = [⟨sfn, stripTrailing (runUnits R), 0, R.length + 1⟩] := by
-    unfold readDirEntries
-    rw [readLoop_lfn_block true sv R [sfn] 0 0 _ hl]
-    rw [readLoop, hsfn]
-    simp only [readLoop, Nat.zero_add]
-    have := run_spec (sfnName sfn) (new true) DeadV_new R.reverse 1 [] (by simp [TailOk]) (Nat.le_refl 1)
-    simp only [List.foldl_nil, tailUnits, runB, List.foldr_reverse] at this
-    have hc := specRun_complete _ R [] hR
-    simp only [List.append_nil] at hc
-    rw [hc] at this
-    rw [this, outName]
-  cases alloc
-  · rw [← hvec]
-    unfold readDirEntries
-    symm
-    apply readLoop_equiv sv _ 0 0 false _ _ _ Sim_new (fun _ => DeadPair_new)
-    rw [cleanStarts_run _ R sfn [] hR hl (Or.inl hsfn)]
-    rfl
-  · exact hvec
+    readDirEntries alloc sv (R ++ [sfn]) = [⟨sfn, capName (stripTrailing (runUnits R)), 0, R.length + 1⟩] := by
+  unfold readDirEntries
+  rw [readLoop_lfn_block alloc sv R [sfn] 0 0 _ hl]
+  rw [readLoop, hsfn]
+  simp only [readLoop, Nat.zero_add]
+  have := run_spec alloc (sfnName sfn) (new alloc) (Dead_new alloc) R.reverse 1 [] (by simp [TailOk]) (Nat.le_refl 1)
+  simp only [List.foldl_nil, tailUnits, runB, List.foldr_reverse] at this
+  have hc := specRun_complete _ R [] hR
+  simp only [List.append_nil] at hc
+  rw [hc] at this
+  rw [this, outName]
 
 end Lfn
 end FatVerif
